@@ -161,3 +161,47 @@ func H_C10_leaflist() {
 		symAssert(ok && len(got) == len(want), "GetNode returns the slice just set")
 	}
 }
+
+// H_C10_shared_pointer: a tree in which two leaves hold the same Go pointer (entries
+// cloned from a template, one ygot.Uint16(v) assigned twice): setting one of them
+// through SetNode must leave the other leaf's value as it was, and a *T handed out by an
+// earlier GetNode keeps the value it had.
+func H_C10_shared_pointer() {
+	old := symUint16("old")
+	oldCell := old // the shared cell (old itself stays the reference value)
+	shared := &oldCell
+	na, nb := "a", "b"
+	s := symStringN("olds", 1)
+	sCell := s
+	sharedStr := &sCell
+	d := &Device{C: &V_C{
+		Ks:  map[string]*V_C_Ks{"a": {Name: &na, Val: shared}, "b": {Name: &nb, Val: shared}},
+		Cfg: sharedStr,
+		Sel: sharedStr,
+	}}
+	schema := SchemaTree["Device"]
+	var opts []ytypes.SetNodeOpt
+	if symBool("init") {
+		opts = append(opts, &ytypes.InitMissingElements{})
+	}
+	if symBool("string leaf") {
+		nv := symStringN("news", 1)
+		err := ytypes.SetNode(schema, d, c10Path(c10E("c"), c10E("cfg")), &gpb.TypedValue{Value: &gpb.TypedValue_StringVal{StringVal: nv}}, opts...)
+		symReach("set string")
+		symAssert(err == nil, "SetNode of a string on an existing leaf succeeds")
+		symAssert(d.C.Cfg != nil && *d.C.Cfg == nv, "the addressed leaf holds the new value")
+		symAssert(d.C.Sel != nil && *d.C.Sel == s, "another leaf that shared the pointer keeps its previous value")
+		return
+	}
+	before, _ := ytypes.GetNode(schema, d, c10Path(c10E("c"), c10K("ks", "name", "b"), c10E("val")))
+	nv := symUint16("new")
+	err := ytypes.SetNode(schema, d, c10Path(c10E("c"), c10K("ks", "name", "a"), c10E("val")), &gpb.TypedValue{Value: &gpb.TypedValue_UintVal{UintVal: uint64(nv)}}, opts...)
+	symReach("set uint")
+	symAssert(err == nil, "SetNode of a uint on an existing leaf succeeds")
+	symAssert(d.C.Ks["a"].Val != nil && *d.C.Ks["a"].Val == nv, "the addressed leaf holds the new value")
+	symAssert(d.C.Ks["b"].Val != nil && *d.C.Ks["b"].Val == old, "the same leaf of another list entry keeps its previous value")
+	if len(before) == 1 {
+		p, ok := before[0].Data.(*uint16)
+		symAssert(ok && p != nil && *p == old, "a value handed out by an earlier GetNode is not changed by a later SetNode of another leaf")
+	}
+}
